@@ -75,7 +75,7 @@ var _ http.Header
 // has canonical header keys.
 //@ func DecodeAccessResponse
 //@   ensures[C17] result1 != nil && result1.Header != nil ==> predCanonKeys(result1.Header)
-//@   ensures result2 != nil ==> result0 == nil
+//@   ensures[C04] (result2 != nil ==> result0 == nil) && (result0 != nil || result2 != nil)
 //@   safety[C15]
 //@ func DecodeCallResponse
 //@   ensures[C17] result2 != nil && result2.Header != nil ==> predCanonKeys(result2.Header)
